@@ -82,7 +82,7 @@ SimStep ==
   \/ \E n \in One(Names \ NT), m \in One(Mails), x \in One(Expires) : \E S \in SimSigners(n, "CMT"), v \in SimVia(n, Nil) : RegisterTLD(S, v, n, m, x)
   \/ \E n \in One(NT), o \in One(Owners), m \in One(Mails), x \in One(Expires) : \E S \in SimSigners(n, o), v \in SimVia(n, o) : Register(S, v, n, o, m, x)
   \/ \E n \in One(NT), o \in One(Owners), m \in One(Mails), x \in One(Expires) : \E S \in SimSigners(n, o), v \in SimVia(n, o) : Register(S, v, n, o, m, x)
-  \/ \E n \in SimNames, o \in One(Owners) : \E S \in SimSigners(n, Nil), v \in SimVia(n, Nil) : Transfer(S, v, n, o)
+  \/ \E n \in SimNames, o \in One(Owners) : \E S \in SimSigners(n, Nil), v \in SimVia(n, Nil) : Transfer(S, v, n, o, Nil)
   \/ \E n \in SimNames \cup One(Names \ NT), y \in One(Years) : \E S \in SimSigners(n, Nil), v \in SimVia(n, Nil) : Renew(S, v, n, y)
   \/ \E n \in SimNames, o \in One(Owners \cup {Nil}) : \E S \in SimSigners(n, o), v \in SimVia(n, o) : SetAdmin(S, v, n, o)
   \/ \E n \in SimNames, m \in One(Mails), x \in One(Expires) : \E S \in SimSigners(n, Nil), v \in SimVia(n, Nil) : UpdateSOA(S, v, n, m, x)
